@@ -74,6 +74,21 @@ CHECKS['C06'] = dict(
    text='From 5 (quick) / 9 (thorough) initial inputs (empty, with NUL, 19 bits, slices starting at bit 3/5/8, float-sized) every parsing word (bits bytes uN iN int uint fN float magic seek find remain offset input nulbytestr cstr dump big little open-bitstr close-bitstr) with every argument of the size alphabet (0..129, remain, remain+1, 2^32, 2^63-1, 2^63, 2^64-1, 2^64, i128::MAX, -1, nil, 1.5) and pattern/position alphabets, nesting <= 2/3 opened inputs, BFS to closure over the model state (input bits, consumed bits, storage base, byte order). Success: value = model bits/number, offset advanced exactly, remain and input agree. Failure: error returned, input/offset/stash and the stack below the arguments untouched.',
    note='Inputs longer than 8 bytes not covered. `find` may refuse non-byte-aligned cursors/patterns; little-endian reads of odd widths only have their cursor movement checked.',
    ref='DESIGN.md §4 C06')
+CHECKS['C08'] = dict(
+   technique='exhaustive product sweeps (word x argument tuples, token strings, raw text, API call sequences) on the real interpreter in two build profiles, every call under catch_unwind in journalled worker subprocesses',
+   text='Four complete sweeps, each in the checked (overflow-checks + debug-assertions) and the unchecked profile: every dictionary word (241 incl. the d2 plugin) x every argument tuple of arity 0..2 over a 61-value mixed-type/boundary alphabet and arity 3 over a 12-value core (thorough: arity 3 on the full alphabet) x 4 start states; all token strings <= 3 (4) over the 55-token compiler alphabet x 3 drive modes incl. stepping and reverse stepping; all raw texts <= 4 (5) over the adversarial character alphabet; all API call sequences <= 3 (4) over 29 operations. After every case the error-formatting calls and a follow-up eval run too. A caught unwind or a dead worker (attributed to one case through the journal) is a violation.',
+   note='External/non-deterministic words (random, random-bits, read-all, write-all, exec-piped, include, require) are never run; allocation-size positions are capped at 2^16 ("modest allocation sizes"); values outside the alphabet and longer token strings not covered.',
+   ref='DESIGN.md §4 C08')
+CHECKS['C14'] = dict(
+   technique='exhaustive enumeration of every limit value against the recorded unconstrained trace of each program, stepped on the real interpreter with a per-step invariant monitor (explicit per-step invariant checking)',
+   text='47 growth-path programs (pushes, unbox, collect, loops, recursion, meta blocks, var/let chains, foreach, late binding) and every program of the control-flow and repertoire grammars up to 3 (quick) / 4 (thorough) nodes: for EVERY instruction limit 0..=needed+1, EVERY stack limit 0..=deepest+2 and EVERY heap limit h0..=largest+1 the program is compiled and stepped; after every step meter <= N, stack <= S, heap <= H; insufficient limits must fail with the limit error no later than the first exceeding step, sufficient ones must not change the outcome; after lifting the limit run() resumes to the unconstrained result (N) / probes evaluate normally (S, H); same limits under a single eval.',
+   note='Needed instruction count is measured, not assumed. Stack limits within 1 of the deepest observed depth may go either way (intra-instruction peaks).',
+   ref='DESIGN.md §4 C14')
+CHECKS['C15'] = dict(
+   technique='exhaustive differential enumeration: every corpus program run in 3 drive modes x recording on/off on the real interpreter, outcomes compared',
+   text='Every program of the control-flow grammar and the repertoire grammar up to 4 (quick) / 5 (thorough) nodes plus ~100 repertoire templates with a binary input, each run six ways ({eval, compile+run, compile+next*} x reverse recording off/on): result or error kind, output, visible stack, heap cells and (for successful runs) call/loop/builder stacks must agree.',
+   note='Programs cut by the instruction limit (1500) are compared by result class only.',
+   ref='DESIGN.md §4 C15')
 
 NOT_BUILT = {}
 
@@ -100,7 +115,7 @@ for p in props:
 
 m = {
  'version': 1,
- 'setup_cmd': 'cd /verif/mc && CARGO_NET_OFFLINE=true cargo build --release --offline',
+ 'setup_cmd': 'cd /verif/mc && CARGO_NET_OFFLINE=true cargo build --release --offline && CARGO_NET_OFFLINE=true cargo build --profile unchecked --offline',
  'hooks': {
    'guard': 'cargo feature verif_hooks',
    'enable': 'mc/Cargo.toml depends on xeh = { path = "/repo", features = ["verif_hooks"] }; every ./check rebuilds from the working tree',
